@@ -93,8 +93,8 @@ def gen(rng, tier):
             yield {"family": "state.empty", "backend": be, "phase": "state", "script": "complete_empty", "activity": "two_conns", "rep": rep}
             yield {"family": "state.no-lifespan", "backend": be, "phase": "state", "script": "raise_before_receive", "activity": "two_conns", "rep": rep}
             # the real master process and its spawn-ed workers
-            for which, workers in ((("failing", 1), ("failing", 2), ("raising", 1), ("ok", 2)) if tier == "quick" else
-                                   (("failing", 1), ("failing", 2), ("failing", 3), ("raising", 1), ("raising", 2), ("ok", 1), ("ok", 2))):
+            for which, workers in ((("failing", 1), ("failing", 2), ("raising", 1), ("ok", 2), ("failing-one", 2)) if tier == "quick" else
+                                   (("failing", 1), ("failing", 2), ("failing", 3), ("raising", 1), ("raising", 2), ("ok", 1), ("ok", 2), ("failing-one", 2), ("failing-one", 3))):
                 yield {"family": "process.%s.w%d" % (which, workers), "backend": be, "phase": "process", "script": which, "workers": workers, "activity": "probe", "rep": rep}
 
 
@@ -112,9 +112,11 @@ def _process_startup(case, tally):
     be, workers, which = case["backend"], case["workers"], case["script"]
     d = tempfile.mkdtemp(prefix="hv-c14p-")
     path, logf = os.path.join(d, "s.sock"), os.path.join(d, "log")
-    target = {"failing": "hv.apps.procapp:failing_app", "raising": "hv.apps.procapp:raising_app", "ok": "hv.apps.procapp:app"}[which]
+    target = {"failing": "hv.apps.procapp:failing_app", "raising": "hv.apps.procapp:raising_app", "ok": "hv.apps.procapp:app",
+              "failing-one": "hv.apps.procapp:failing_once_app"}[which]
     cmd = [sys.executable, "-m", "hypercorn", "--bind", "unix:" + path, "--workers", str(workers), "--worker-class", be, "--graceful-timeout", "2", target]
-    proc = subprocess.Popen(cmd, env=dict(os.environ, HV_PROC_LOG=logf), stdout=subprocess.PIPE, stderr=subprocess.STDOUT, cwd=d)
+    proc = subprocess.Popen(cmd, env=dict(os.environ, HV_PROC_LOG=logf, HV_PROC_LOCK=os.path.join(d, "lock")), stdout=subprocess.PIPE, stderr=subprocess.STDOUT, cwd=d,
+                            start_new_session=True)  # (its own process group: workers the master leaves behind can be cleared away with it)
     served, rc, out = [], None, b""
 
     def ask(i):
@@ -136,7 +138,7 @@ def _process_startup(case, tally):
             c.close()
 
     try:
-        if which == "failing":
+        if which in ("failing", "failing-one"):
             end = time.monotonic() + 25.0
             i = 0
             while time.monotonic() < end and proc.poll() is None:
@@ -168,17 +170,44 @@ def _process_startup(case, tally):
             except subprocess.TimeoutExpired:
                 rc = "timeout"
     finally:
+        try:
+            os.killpg(proc.pid, signal.SIGKILL)
+        except (ProcessLookupError, PermissionError):
+            pass
         if proc.poll() is None:
             proc.kill()
-            proc.communicate()
+        try:
+            proc.communicate(timeout=10.0)
+        except subprocess.TimeoutExpired:
+            pass
         log = [ln.split() for ln in (open(logf).read().splitlines() if os.path.exists(logf) else [])]
         shutil.rmtree(d, ignore_errors=True)
     log = [f for f in log if len(f) == 4]
     tally.events["proc.log-lines"] += len(log)
-    if rc == "timeout" and which != "failing":
+    if rc == "timeout" and which not in ("failing", "failing-one"):
         tally.inconclusive["process-run-did-not-finish"] += 1
         return findings, [None]
     tally.clause("process-startup")
+    if which == "failing-one":
+        # start-up failed in one worker and completed in another: the server aborts with an error all the same, and the worker that did
+        # start is shut down in order - told to stop, its lifespan.shutdown delivered (once) - not left serving until it is killed
+        failed = {f[1] for f in log if f[2] == "lifespan" and f[3] == "startup-failing"}
+        good = {f[1] for f in log if f[2] == "lifespan" and f[3] == "startup"}
+        if not failed or not good:
+            tally.inconclusive["process-run-no-asymmetric-failure"] += 1
+            return findings, [None]
+        if rc == "timeout":
+            findings.append({"clause": "failure-aborts", "sig": "C14.process/not-aborted-after-one-worker-failed/%s" % be, "backend": be,
+                             "detail": "lifespan.startup.failed in worker(s) %s, completed in %s: the master was still running 25 s later" % (sorted(failed), sorted(good))})
+        elif rc == 0:
+            findings.append({"clause": "failure-aborts", "sig": "C14.process/exit-status-0-after-startup-failed/%s" % be, "backend": be,
+                             "detail": "lifespan.startup.failed in one of %d workers: the master ended with exit status 0" % workers})
+        for pid in sorted(good):
+            n = sum(1 for f in log if f[1] == pid and f[2] == "lifespan" and f[3] == "shutdown")
+            if n != 1 and rc != "timeout":
+                findings.append({"clause": "shutdown-once", "sig": "C14.process/sibling-shutdown-count-%d/%s" % (n, be), "backend": be,
+                                 "detail": "worker %s had completed its start-up when another worker's failed: it received lifespan.shutdown %d times before the server ended" % (pid, n)})
+        return findings, [None]
     if which == "failing":
         if not any(f[2] == "lifespan" and f[3] == "startup" for f in log):
             tally.inconclusive["process-run-lifespan-never-started"] += 1
